@@ -30,8 +30,36 @@ def reference(args):
     evs = crashdrv.read_events(evp)
     eff = next((e["effects"] for e in evs if e.get("ev") == "_effects"), None)
     err = next((e for e in evs if e.get("ev") == "_error"), None)
+    # did some completed step leave an arrangement that sort_trajstate had to change?  (a restart file written before the
+    # sorting would then record an unsorted state: the scenarios are chosen so that this window exists)
+    moved = 0
+    real = [e for e in evs if not e["ev"].startswith("_")]
+    for prev, ev in zip(real, real[1:]):
+        if ev["ev"] == "Complete" and ev.get("acc"):
+            naive = list(prev["st"]["slot"])
+            for o, nw in zip(ev["old"], ev["new"]):
+                if o in naive:
+                    naive[naive.index(o)] = nw
+            if naive != list(ev["st"]["slot"]):
+                moved += 1
     sysdrv.cleanup(root)
-    return sc, rc, eff, err
+    return sc, rc, eff, err, moved
+
+
+def pick_scenarios(base, tries=40):
+    """For every base scenario the first seed whose crash-free run contains a step that sort_trajstate rearranges."""
+    cands = []
+    for b in base:
+        for k in range(tries):
+            cands.append(dict(b, seed=b["seed"] + k))
+    refs = common.pmap(reference, [(s,) for s in cands])
+    out = []
+    for bi, b in enumerate(base):
+        mine = refs[bi * tries:(bi + 1) * tries]
+        ok = [r for r in mine if r[1] == 0 and r[2] is not None]
+        best = next((r for r in ok if r[4] > 0), ok[0] if ok else mine[0])
+        out.append(best)
+    return out
 
 
 def crash_case(args):
@@ -97,7 +125,7 @@ _DONE = re.compile(r'<<"TRACE-CONSUMED", (\d+), (\d+)>>')
 CRASH_CLAUSES = {"T_OrderBegin", "T_OldsLive", "T_OrderStore", "T_OrderDelete", "T_DeleteSafe", "T_OrderRow", "T_OrderTmp", "T_OrderReplace",
                  "T_Crash", "T_Startable", "T_ActiveFromRestart", "T_NextFromRestart", "T_RowsAfterRestart", "T_RowsNotLive", "T_Refused",
                  "T_OrderCheck", "T_Rows", "T_Active", "T_Next", "T_RowsOnce", "T_RestartIsMemory", "T_LiveHaveFiles", "T_KnownEvent"}
-CRASH_CONSTS = {"N0": 3, "MaxPn": 7, "MaxCrashes": 2, "MaxSteps": 4, "QueueLen": 1, "Prune": "TRUE", "AtomicRestart": "TRUE"}
+CRASH_CONSTS = {"N0": 3, "MaxPn": 7, "MaxCrashes": 2, "MaxSteps": 4, "QueueLen": 1, "Prune": "TRUE", "AtomicRestart": "TRUE", "AtomicPrune": "TRUE"}
 
 
 def crash_cfg(path, consts, invariants):
@@ -113,6 +141,7 @@ def model_check_crash(chk, work, q):
     runs = [("current", big, None),
             ("restart-file-rewritten-in-place", dict(CRASH_CONSTS, AtomicRestart="FALSE"), "Startable"),
             ("rows-kept-at-restart", dict(CRASH_CONSTS, Prune="FALSE"), "RowsOnce"),
+            ("pruned-file-written-in-place", dict(CRASH_CONSTS, AtomicPrune="FALSE"), "RowsOnce"),
             ("immediate-delete_old", dict(CRASH_CONSTS, QueueLen=0), None)]
     leads = []
     for name, consts, expect in runs:
@@ -127,7 +156,7 @@ def model_check_crash(chk, work, q):
         if name == "current":
             if not res["ok"]:
                 chk.machinery(f"TLC refuted {res['violated']} on Crash.tla with the protocol of the current tree")
-            never = tlc.vacuity(res, ["AnyMove", "StorePart", "StoreDone", "Retire", "Row", "Tmp", "Replace", "CrashClean", "CrashInRow", "CrashInTmp", "Restart"])
+            never = tlc.vacuity(res, ["AnyMove", "StorePart", "StoreDone", "Retire", "Row", "Tmp", "Replace", "CrashClean", "CrashInRow", "CrashInTmp", "Restart"])      # PruneWrite exists only without AtomicPrune
             if never:
                 chk.machinery(f"Crash.tla: actions never taken: {never}")
         else:
@@ -202,9 +231,10 @@ def main(tier, replay=None):
                        "delete_old": True, "delete_old_all": True},
                       {"n": 3, "workers": 2, "steps": 6, "seed": 8, "sched_seed": 5}]
     model_check_crash(chk, S._CTX["work"], q)
-    refs = common.pmap(reference, [(s,) for s in scenarios])
+    refs = pick_scenarios(scenarios)
+    chk.cov["scenarios_with_a_rearranging_step"] = sum(1 for r in refs if r[4] > 0)
     cases = []
-    for scn, rc, eff, err in refs:
+    for scn, rc, eff, err, _moved in refs:
         if rc != 0 or eff is None:
             chk.machinery(f"reference run of {scn} failed (rc={rc}, {err})")
             continue
@@ -224,10 +254,19 @@ def main(tier, replay=None):
             p1 = rnd.choice(pts)
             p2 = (rnd.randrange(0, max(1, len(eff) // 2)), rnd.choice(["before", "empty"]), None)
             cases.append((len(cases), scn, [p1, p2]))
+        # crashes during the recovery itself: the first kill leaves a data row that is newer than the restart file (so the
+        # restart has something to prune), the second kill falls on one of the first effects of the restarted lifetime
+        window = [p for p in pts if (eff[p[0]][1] == "infretis_data.txt" and eff[p[0]][0] == "open:a" and p[1] in ("half", "after"))
+                  or (eff[p[0]][1] == "restart.toml.tmp") or (eff[p[0]][1] == "restart.toml" and eff[p[0]][0] == "replace" and p[1] == "before")]
+        window = [p for p in window if any(e[1] == "infretis_data.txt" and e[0] == "open:a" for e in eff[max(0, p[0] - 2):p[0] + 1])]
+        rnd.shuffle(window)
+        for p1 in window[:(6 if q else 40)]:
+            for p2 in ((0, "before", None), (0, "empty", None), (0, "half", 40), (0, "after", None), (1, "before", None), (1, "after", None)):
+                cases.append((len(cases), scn, [p1, p2]))
     results = common.pmap(crash_case, cases, chunksize=2)
     groups = {}
     effect_of = {}
-    for scn, rc, eff, err in refs:
+    for scn, rc, eff, err, _moved in refs:
         effect_of[json.dumps(scn, sort_keys=True)] = eff
     reached = 0
 
